@@ -487,6 +487,7 @@ func (f *Federation) EventStream(stream Federation_EventStreamServer) (err error
 			var in *Event
 			select {
 			case <-done:
+				return
 			default:
 				in, err = stream.Recv()
 				if err != nil {
